@@ -35,12 +35,13 @@ Allowed == { <<"IDLE","IDLE">>, <<"ACTIVE","IDLE">>, <<"CONNECT","IDLE">>, <<"OP
              <<"OPENSENT","OPENCONFIRM">>, <<"OPENCONFIRM","OPENCONFIRM">>,
              <<"OPENCONFIRM","ESTABLISHED">>, <<"ESTABLISHED","ESTABLISHED">> }
 
-OPEN == 1  UPDATE == 2  NOTIFICATION == 3  KEEPALIVE == 4  REFRESH == 5
+OPEN == 1  UPDATE == 2  NOTIFICATION == 3  KEEPALIVE == 4  REFRESH == 5  OPERATIONAL == 6
 
 \* Classes of things the remote end can put on the transport (harness/sessioncheck.py builds the bytes).
 Classes == { "OPEN", "OPEN-version", "OPEN-as", "OPEN-id", "OPEN-hold", "OPEN-trunc",
              "KA", "UPD", "UPD-eor", "UPD-reset", "UPD-tolerated", "NOTIF", "REFRESH",
              "HDR-marker", "HDR-length", "HDR-type", "EOF",
+             "OPER",              \* OPERATIONAL (type 6, advisory demand message) on a session that did not negotiate the capability
              "UPD-4097",          \* well-formed UPDATE of 4097 bytes on a session that negotiated extended messages
              "HDR-length-4097" }  \* the same bytes where extended messages were not negotiated by both sides: 1/2
 
@@ -49,6 +50,7 @@ TypeOf(c) == CASE c \in {"OPEN", "OPEN-version", "OPEN-as", "OPEN-id", "OPEN-hol
                [] c = "KA" -> KEEPALIVE
                [] c = "NOTIF" -> NOTIFICATION
                [] c = "REFRESH" -> REFRESH
+               [] c = "OPER" -> OPERATIONAL
                [] OTHER -> 0
 
 \* Required(c, s): the NOTIFICATIONs one of which MUST answer class c consumed in state s, as a set of
@@ -76,6 +78,7 @@ Required(c, s) ==
       [] OTHER -> {}
 Permitted(c, s) ==
     CASE s = "ESTABLISHED" /\ TypeOf(c) = OPEN -> {<<5, {3}>>, <<6, {}>>} \cup OpenErr(c)   \* an OPEN on an established session may be ignored
+      [] s = "ESTABLISHED" /\ c = "OPER" -> {<<1, {3}>>, <<5, {}>>}                           \* not negotiated: a type we do not speak, or ignored
       [] s = "ESTABLISHED" /\ c = "UPD-tolerated" -> {<<3, {}>>}                            \* RFC 7606 prefers treat-as-withdraw
       [] s \in {"OPENSENT", "CONNECT"} /\ TypeOf(c) = UPDATE -> {<<3, {}>>}                  \* decoded before any capability is negotiated: may not parse
       [] s = "OPENCONFIRM" /\ c \in {"UPD-reset", "UPD-tolerated"} -> {<<3, {}>>}             \* both unexpected (5/2) and malformed (3/x): either names the error
@@ -109,6 +112,7 @@ vars  == <<svars, now>>
 NoFault == {}
 NotifMark == <<0, {}>>              \* kept in mayFault once a NOTIFICATION was consumed on this transport (no NOTIFICATION has code 0)
 GotNotif  == NotifMark \in mayFault
+ReplaceMark == <<-1, {}>>           \* kept in mayFault while an inbound connection is being handled (it may replace the transport)
 Chk(name, ok) == IF ok THEN {} ELSE {name}
 
 Init ==
@@ -209,6 +213,11 @@ FsmEff(frm, to, t) ==
 CloseViol ==
     Chk("C10-session-ended-on-error-without-notification",
         (fault # NoFault /\ ~closing) => notified)
+    \* C10 "whenever ExaBGP ends a session because of something it received or a timer, the last message it writes is a
+    \* NOTIFICATION": a connected state was left by the peer's own doing (leftAt), the remote end is still there, nothing
+    \* was written -- the session was dropped silently (an exception that is not a Notify escaped, typically)
+    \cup Chk("C10-session-dropped-without-notification",
+             (leftAt >= 0 /\ ~closing /\ ReplaceMark \notin mayFault) => notified)
 CloseEff ==
     /\ open' = FALSE /\ leftAt' = -1 /\ inq' = <<>>
     /\ tear' = IF notified THEN 0 ELSE tear
